@@ -99,4 +99,23 @@ LEMMA InvStep == Inv /\ [Next]_vars => Inv'
 
 THEOREM Safety == Spec => []Inv
   BY InvInit, InvStep, PTL DEF Spec
+
+\* ids are stable: a step never renumbers or removes what the table holds (the step form of C11 (i) for the discipline)
+Stable == Len(table') >= Len(table) /\ \A i \in 1..Len(table) : table'[i] = table[i]
+THEOREM StableStep == Inv /\ [Next]_vars => Stable
+<1> SUFFICES ASSUME Inv, [Next]_vars PROVE Stable
+  OBVIOUS
+<1>1. CASE UNCHANGED vars
+  BY <1>1 DEF Inv, vars, Stable
+<1>2. ASSUME NEW t \in Ids, EnterHit(t) PROVE Stable
+  BY <1>2 DEF EnterHit, Inv, Stable
+<1>3. ASSUME NEW t \in Ids, EnterNew(t) PROVE Stable
+  <2>1. table' = Append(table, t)
+    BY <1>3 DEF EnterNew
+  <2>2. Len(table') = Len(table) + 1 /\ \A i \in 1..Len(table) : table'[i] = table[i]
+    BY <2>1 DEF Inv
+  <2> QED BY <2>2 DEF Stable, Inv
+<1>4. CASE Exit
+  BY <1>4 DEF Exit, Inv, Stable
+<1> QED BY <1>1, <1>2, <1>3, <1>4 DEF Next
 =============================================================================
